@@ -10,7 +10,7 @@
     [cmdP cfg (SetFreq f)] = f is NaN, or finite with |f| <= next_up(max_freq_offset). *)
 From Coq Require Import Floats.
 From SV Require Import Filter.FloatBits Filter.FloatOrder Filter.ClampBound Filter.FilterCases
-  Filter.FilterLemmas Filter.Repaired.
+  Filter.FilterLemmas Filter.Repaired Filter.AssertSites.
 
 (** freq_cmd_bounded, the half that holds of today's code — every trajectory, every
     length, every clock, every exp: a frequency command is NaN or within ONE ULP
@@ -108,6 +108,42 @@ Proof. exact basic_finite_refuted. Qed.
 Theorem C13_repaired_basic_finite : forall dbg s m,
   mspec cmdP_fin (basic_measurement_r dbg s m) (fun _ => True).
 Proof. exact repaired_basic_finite. Qed.
+
+(** step_cmd, magnitude clause: kernel evaluation on a boundary lattice (a test, see
+    Filter/FilterLemmas.v); in general it is checked by the oracle on implementation traces *)
+Theorem C13_step_magnitude_grid_partial : step_mag_grid = true.
+Proof. exact step_mag_grid_holds. Qed.
+
+(** debug_assert!(time >= self.filter_time), debug builds.  Invariant TInv: the wander
+    filter's time never exceeds the running filter's time (they are NOT always equal),
+    and it exists only if the running filter does.  If the clock's replies during a
+    measurement are not earlier than the event time, no path reaches the assertion --
+    neither through the running filter nor through the wander filter -- and TInv is kept.
+    ([aspec T m Q]: replies >= T  ==>  m does not panic at site_progress_assert, and Q.) *)
+Theorem C13_measurement_assert_unreachable : forall exp_fn cfg s m,
+  TInv s ->
+  aspec (m_time m) (kalman_measurement exp_fn true cfg s m) (fun r => TInv (fst r)).
+Proof. exact measurement_assert_unreachable. Qed.
+
+Theorem C13_update_assert_unreachable : forall (exp_fn : float -> float) cfg T s,
+  TInv s -> otime_le (k_run s) T ->
+  aspec T (kalman_update true cfg s) (fun r => TInv (fst r)).
+Proof. exact update_assert_unreachable. Qed.
+
+Theorem C13_demobilize_assert_unreachable : forall (exp_fn : float -> float) cfg T s,
+  TInv s -> otime_le (k_run s) T ->
+  aspec T (kalman_demobilize true cfg s) (fun _ => True).
+Proof. exact demobilize_assert_unreachable. Qed.
+
+Theorem C13_new_filter_TInv : forall cfg s, kalman_new cfg = Ok s -> TInv s.
+Proof. exact kalman_new_TInv. Qed.
+
+(** F15: with a reply EARLIER than the event time the assertion is reached (debug build
+    panics on the second measurement, release build carries on) *)
+Theorem C13_F15_assert_reachable :
+  map o_res (run_filter exp_eval true (FKalman kalman_default_cfg) f15_events f15_replies) = [Some (true, Some 0); None]
+  /\ map o_res (run_filter exp_eval false (FKalman kalman_default_cfg) f15_events f15_replies) = [Some (true, Some 0); Some (true, Some 0)].
+Proof. exact f15_assert_reachable. Qed.
 
 (** Non-vacuity: the default bound satisfies the hypothesis, the default
     configuration creates a filter, and the F12 stream makes it issue commands. *)
